@@ -4,7 +4,7 @@ import itertools as itt
 import string
 from typing import cast
 
-from y0.dsl import PP, Expression, P, Q, Sum, Variable
+from y0.dsl import PP, Expression, One, P, Q, Sum, Variable, Zero
 
 __all__ = [
     "parse_y0",
@@ -21,6 +21,8 @@ LOCALS = {
     "Q": Q,
     "QFactor": Q,
     "PP": PP,
+    "One": One,
+    "Zero": Zero,
 }
 
 for letter in itt.chain(string.ascii_uppercase, ["Pi", "π"]):
